@@ -1,5 +1,6 @@
 """The same small battery of conformance items, run in FRESH interpreters started in ways a
-user may start theirs: plainly, with -O and -OO (asserts and docstrings stripped), and with a
+user may start theirs: plainly, with -O and -OO (asserts and docstrings stripped), with warnings
+turned into errors, in the C locale, in development mode with another hash seed, and with a
 wall clock that does not behave like the one of a test run ('warp': every reading of
 time.time / monotonic / perf_counter is seconds later than the previous one, and sleep()
 returns late by varying amounts).  None of the twenty properties mentions interpreter flags
@@ -20,7 +21,7 @@ import subprocess
 import sys
 
 VERIF = os.path.dirname(os.path.dirname(os.path.abspath(__file__)))
-VARIANTS = ('plain', 'opt', 'opt2', 'warp')
+VARIANTS = ('plain', 'opt', 'opt2', 'warp', 'werror', 'clocale', 'dev')
 
 
 # ------------------------------------------------------------------ the virtual clock
@@ -621,10 +622,70 @@ def item_text(mido, out):
         shutil.rmtree(d, ignore_errors=True)
 
 
-ITEMS = {'wire': item_wire, 'ranges': item_ranges, 'chunks': item_chunks, 'smf': item_smf, 'charset': item_charset,
+def item_value(mido, out):
+    """C15: copies, frozen and thawed messages equal the original and share nothing with it."""
+    from mido.frozen import freeze_message, thaw_message, is_frozen
+    M, MM = mido.Message, mido.MetaMessage
+    for m in _msgs(mido) + [MM('set_tempo', tempo=3), MM('sequencer_specific', data=(1, 2)), MM('text', text='x'),
+                            mido.UnknownMetaMessage(0x60, data=(1,)), MM('key_signature', key='Cm')]:
+        try:
+            c, f = m.copy(), freeze_message(m)
+            t = thaw_message(f)
+            ok = c == m and f == m and t == m and type(c) is type(m) and type(t) is type(m) and is_frozen(f) and not is_frozen(t)
+            ok = ok and hash(f) == hash(freeze_message(m.copy())) and {f: 1}[freeze_message(c)] == 1 and freeze_message(f) is f
+            c.time = 7
+            t.time = 9
+            ok = ok and m.time == 0 and f.time == 0
+            try:
+                f.time = 1
+                ok = False
+            except (AttributeError, ValueError, TypeError):
+                pass
+            o = m.copy(time=5)
+            ok = ok and o.time == 5 and o.copy(time=0) == m
+        except Exception as e:
+            out.append(('C15', 'value', '%s: %r' % (m, e)))
+            continue
+        if not ok:
+            out.append(('C15', 'value', 'copy / freeze / thaw of %s: copy %s, frozen %s, thawed %s' % (m, _s(c), _s(f), _s(t))))
+    if freeze_message(None) is not None or thaw_message(None) is not None:
+        out.append(('C15', 'value', 'None is not mapped to None'))
+
+
+def item_edits(mido, out):
+    """C16: after edits, every observation is that of a freshly built file with the same contents."""
+    import io
+    M, MM = mido.Message, mido.MetaMessage
+    mid = mido.MidiFile(type=1, ticks_per_beat=100)
+    tr = mid.add_track('a')
+    tr.append(M('note_on', note=1, time=50))
+    obs0 = (list(mid), mid.length)
+    tr.append(M('note_on', note=2, time=100))
+    mid.tracks.append(mido.MidiTrack([MM('set_tempo', tempo=250000, time=25), M('note_on', note=3, time=100)]))
+    tr[1].time = 60
+    mid.ticks_per_beat = 50
+    del mid.tracks[0][0]
+    fresh = mido.MidiFile(type=1, ticks_per_beat=50)
+    for t in mid.tracks:
+        fresh.tracks.append(mido.MidiTrack(m.copy() for m in t))
+
+    def observe(x):
+        b = io.BytesIO()
+        x.save(file=b)
+        return [str(m) for m in x], round(x.length, 9), [str(m) for m in x.merged_track], b.getvalue()
+    try:
+        a, b = observe(mid), observe(fresh)
+    except Exception as e:
+        out.append(('C16', 'edits', repr(e)))
+        return
+    if a != b:
+        out.append(('C16', 'edits', 'the edited file shows %s, a fresh one with the same contents %s' % (_s(a[:2]), _s(b[:2]))))
+
+
+ITEMS = {'value': item_value, 'edits': item_edits, 'wire': item_wire, 'ranges': item_ranges, 'chunks': item_chunks, 'smf': item_smf, 'charset': item_charset,
          'ports': item_ports, 'socket': item_socket, 'play': item_play, 'text': item_text}
 # which items can produce findings for which property
-BY_PID = {'C01': ['wire'], 'C02': ['wire'], 'C03': ['ranges'], 'C04': ['chunks'], 'C05': ['chunks'], 'C06': ['chunks'],
+BY_PID = {'C15': ['value'], 'C16': ['edits'], 'C01': ['wire'], 'C02': ['wire'], 'C03': ['ranges'], 'C04': ['chunks'], 'C05': ['chunks'], 'C06': ['chunks'],
           'C07': ['smf'], 'C08': ['smf'], 'C09': ['smf'], 'C10': ['ports'], 'C11': ['ports'], 'C12': ['text'],
           'C13': ['play'], 'C14': ['text'], 'C17': ['charset'], 'C18': ['socket'], 'C19': ['text']}
 
@@ -645,6 +706,16 @@ def child(variant, items):
     sys.path.insert(0, VERIF)
     from vf import core
     mido = core.import_mido()
+    if os.environ.get('VF_VARIANT_SABOTAGE'):
+        # selftest only: a decoder that loses the last attribute must be reported by the 'wire' item
+        real = mido.Message.from_bytes.__func__
+
+        def lossy(cls, data, time=0):
+            m = real(cls, data, time)
+            if m.type == 'note_on':
+                vars(m)['velocity'] = 0
+            return m
+        mido.Message.from_bytes = classmethod(lossy)
     out = []
     for name in items:
         try:
@@ -656,9 +727,15 @@ def child(variant, items):
 
 
 def run_child(variant, items, timeout=300):
-    flags = {'plain': [], 'opt': ['-O'], 'opt2': ['-OO'], 'warp': []}[variant]
+    flags = {'plain': [], 'opt': ['-O'], 'opt2': ['-OO'], 'warp': [], 'werror': ['-W', 'error'], 'clocale': [],
+             'dev': ['-X', 'dev']}[variant]
     env = dict(os.environ)
     env.pop('PYTHONOPTIMIZE', None)
+    if variant == 'clocale':
+        env.update({'LC_ALL': 'C', 'LANG': 'C', 'PYTHONUTF8': '0', 'PYTHONCOERCECLOCALE': '0'})
+        env.pop('PYTHONIOENCODING', None)
+    if variant == 'dev':
+        env['PYTHONHASHSEED'] = '12345'
     p = subprocess.run([sys.executable] + flags + ['-m', 'vf.variants', variant] + list(items), cwd=VERIF, env=env,
                        stdout=subprocess.PIPE, stderr=subprocess.PIPE, text=True, timeout=timeout)
     for line in p.stdout.splitlines():
@@ -675,7 +752,7 @@ def check(ctx, pid):
     if not items:
         return
     from concurrent.futures import ThreadPoolExecutor
-    with ThreadPoolExecutor(4) as ex:
+    with ThreadPoolExecutor(len(VARIANTS)) as ex:
         res = list(ex.map(lambda v: (v, run_child(v, items)), VARIANTS))
     n = 0
     for variant, out in res:
@@ -692,7 +769,9 @@ def check(ctx, pid):
 
 
 DESCR = {'plain': 'started plainly', 'opt': 'python -O', 'opt2': 'python -OO',
-         'warp': 'wall clock read seconds later at every reading, sleep() returning late'}
+         'warp': 'wall clock read seconds later at every reading, sleep() returning late',
+         'werror': 'python -W error (warnings are exceptions)', 'clocale': 'LC_ALL=C, PYTHONUTF8=0',
+         'dev': 'python -X dev, another hash seed'}
 
 
 def replay(case):
